@@ -32,6 +32,8 @@ fn fmt_of(i: u8) -> Format {
 /// The range of instants the calendar formats can express at all: years -9999..=9999 (jiff::Timestamp::MIN/MAX).
 const CAL_MIN: i64 = -377705023201;
 const CAL_MAX: i64 = 253402207200;
+/// 0000-01-01T00:00:00 (local): below this the printed year is negative
+const YEAR_ZERO: i64 = -62167219200;
 /// Largest offset the calendar formats can express (jiff::tz::Offset: +-25:59:59).
 const CAL_OFF_MAX: i32 = 25 * 3600 + 59 * 60 + 59;
 
@@ -127,7 +129,8 @@ struct Grammar {
 }
 
 /// All strings that differ from the base (alternative 0 everywhere) in at most `k` fields.
-fn deviations(g: &Grammar, k: usize, f: &mut dyn FnMut(String)) {
+fn deviations(g: &Grammar, k: usize, width: usize, f: &mut dyn FnMut(String)) {
+    let g = &Grammar { name: g.name, fields: g.fields.iter().map(|f| f.iter().take(width).copied().collect()).collect() };
     let idx: Vec<usize> = (0..g.fields.len()).collect();
     enumerate::subsets(&idx, 0, k, |chosen| {
         // all combinations of non-base alternatives for the chosen fields
@@ -163,21 +166,21 @@ fn deviations(g: &Grammar, k: usize, f: &mut dyn FnMut(String)) {
 fn grammars() -> Vec<Grammar> {
     let lead = vec!["", " "];
     let trail = vec!["", " ", " x"];
-    let year = vec!["2022", "1970", "1969", "2099", "2100", "2038", "2024", "1979", "22", "70", "122", "0022", "9999", "-0001", "12022"];
-    let month_num = vec!["08", "8", "02", "2", "12", "13", "00", "01"];
-    let day_num = vec!["17", "01", "1", "26", "29", "30", "31", "32", "00"];
-    let hour = vec!["22", "00", "0", "23", "24", "9", "18"];
+    let year = vec!["2022", "2024", "1970", "2099", "1969", "2100", "2038", "1979", "22", "70", "122", "0022", "9999", "-0001", "12022"];
+    let month_num = vec!["08", "02", "12", "8", "2", "13", "00", "01"];
+    let day_num = vec!["17", "29", "31", "1", "01", "26", "30", "32", "00"];
+    let hour = vec!["22", "00", "23", "24", "0", "9", "18"];
     let minute = vec!["04", "00", "59", "60", "4", "30"];
-    let second = vec!["58", "00", "59", "60", "61", "8", "58.5"];
+    let second = vec!["58", "59", "60", "00", "61", "8", "58.5"];
     let zone = vec![
-        "+0200", "-0200", "+0000", "-0000", "+02:00", "-02:00", "+0530", "-0330", "+1400", "+2359", "+2400", "+2559", "+2600", "+9959", "+0060", "Z", "+02",
+        "+0200", "-0330", "+0000", "+2400", "+02:00", "-02:00", "+0530", "-0200", "-0000", "+1400", "+2359", "+2559", "+2600", "+9959", "+0060", "Z", "+02",
         "+020", "+02000", "", "UTC", "GMT", "EST", "EDT", "PDT", "A", "+0200 (CEST)",
     ];
     let wd_comma = vec!["Wed, ", "Thu, ", "", "Wednesday, ", "wed, ", "Wed ", "Xyz, "];
     let wd_space = vec!["Wed ", "Thu ", "", "Wednesday ", "wed ", "Wed, ", "Xyz "];
-    let day_name_fmt = vec!["17", "1", "01", " 1", "9", "29", "30", "31", "32", "0"];
-    let month_name = vec!["Aug", "Feb", "aug", "AUG", "August", "Sep", "Sept", "Dec", "Jan", "Foo", "08"];
-    let hms_sec = vec![":58", "", ":00", ":59", ":60", ":61", ":8", ":58.5"];
+    let day_name_fmt = vec!["17", "1", "29", "31", "01", " 1", "9", "30", "32", "0"];
+    let month_name = vec!["Aug", "Feb", "Dec", "aug", "AUG", "August", "Sep", "Sept", "Jan", "Foo", "08"];
+    let hms_sec = vec![":58", ":60", "", ":59", ":00", ":61", ":8", ":58.5"];
     let mut iso_z = zone.clone();
     iso_z.swap(0, 4); // "+02:00" first
     vec![
@@ -295,16 +298,16 @@ fn grammars() -> Vec<Grammar> {
                 lead,
                 vec![
                     "1660874655",
+                    "100000000",
+                    "99999999",
+                    "4102444800",
                     "0",
                     "1",
                     "12345",
-                    "99999999",
-                    "100000000",
                     "123456789",
                     "2147483647",
                     "2147483648",
                     "4102444799",
-                    "4102444800",
                     "253402300800",
                     "9223372036854775807",
                     "9223372036854775808",
@@ -319,7 +322,7 @@ fn grammars() -> Vec<Grammar> {
                 ],
                 vec![" ", "", "  ", "\t"],
                 vec![
-                    "+0200", "", "-0200", "+0000", "-0000", "+0059", "+0060", "+0099", "+1400", "+2359", "+2400", "+2559", "+9959", "-9959", "--700", "+-200", "+02:00",
+                    "+0200", "", "-0000", "+9959", "-0200", "+0000", "+0059", "+0060", "+0099", "+1400", "+2359", "+2400", "+2559", "-9959", "--700", "+-200", "+02:00",
                     "+020", "+02000", "0200", "Z", "UTC",
                 ],
                 trail,
@@ -383,7 +386,7 @@ pub fn run(run: &'static Run) {
     );
     run.rule(
         "git-parse: 7 grammars (short, iso8601, iso8601-strict, rfc2822, gitoxide, default, raw/unix); every string that differs from the grammar's base string in at most k fields \
-         (quick k=2, thorough k=3), each field ranging over boundary alternatives (years 1969/1970/2099/2100/2-,3-,5-digit/negative; months 00/13/unpadded/names in 4 spellings; days 00/29..32/unpadded/space padded; \
+         (quick: k=1 over the full field alphabets + k=2 over the first 3 alternatives of each field; thorough: k=2 full + k=3 over the first 3), each field ranging over boundary alternatives (years 1969/1970/2099/2100/2-,3-,5-digit/negative; months 00/13/unpadded/names in 4 spellings; days 00/29..32/unpadded/space padded; \
          24:00, :60, :61, fractional, missing seconds; 27 zone spellings incl. -0000, +hh:mm, +2359/+2400/+2559/+2600/+9959, Z/UTC/GMT/EST/PDT, missing; wrong/missing/long weekday; leading/trailing junk); \
          plus the literal the parser special-cases. non-trivial = gitoxide and git both accept and agree on (seconds, offset)",
     );
@@ -391,7 +394,7 @@ pub fn run(run: &'static Run) {
     run.assume("SHORT and UNIX texts do not carry time-of-day/offset resp. offset: the round trip is required to return what the text carries (midnight UTC of the printed date; offset 0)");
     run.assume("git 2.39.5 `git var GIT_COMMITTER_IDENT` with TZ=UTC prints git's parse_date() of GIT_COMMITTER_DATE; strings git refuses (e.g. no time of day, year outside 1970..2099) are outside the comparison");
     run.assume("strings gitoxide refuses are outside the comparison (the property speaks about the formats gitoxide accepts); relative dates are not absolute formats and are not generated");
-    run.budget_secs(run.pick(35.0, 540.0));
+    run.budget_secs(std::env::var("C52_BUDGET").ok().and_then(|s| s.parse().ok()).unwrap_or(run.pick(35.0, 540.0)));
 
     let t0 = std::time::Instant::now();
     let insts = instants();
@@ -432,8 +435,15 @@ pub fn run(run: &'static Run) {
             match vkit::catch(|| gix_date::parse(&text, None)) {
                 Err(p) => bad("parse-panic", format!("parse({text:?}) panics: {p}")),
                 Ok(Err(e)) => {
-                    let year_digits = if (0..=CAL_MAX).contains(&c.seconds) { "" } else { "-negative-year" };
-                    bad(&format!("unparsable{year_digits}"), format!("{t:?} formats as {text:?} ({}) which parse() refuses: {e}", c.format))
+                    // name the failure shape: the two places where the text leaves what the parser can take back
+                    let class = if fi == 0 && !(CAL_MIN..=CAL_MAX).contains(&es) {
+                        "unparsable-short-range-edge"
+                    } else if matches!(fi, 1 | 2) && c.seconds + (c.offset as i64) < YEAR_ZERO {
+                        "unparsable-rfc2822-negative-year"
+                    } else {
+                        "unparsable"
+                    };
+                    bad(class, format!("{t:?} formats as {text:?} ({}) which parse() refuses: {e}", c.format))
                 }
                 Ok(Ok(back)) => {
                     if fi == 6 {
@@ -455,7 +465,8 @@ pub fn run(run: &'static Run) {
 
     // ---- absolute strings vs git ----
     let dir = vkit::scratch::Dir::new("c52git");
-    let k = run.pick(2, 3);
+    // (max number of deviating fields, number of alternatives per field incl. the base)
+    let levels: &[(usize, usize)] = run.pick(&[(1, usize::MAX), (2, 3)], &[(2, usize::MAX), (3, 3)]);
     let agree = AtomicU64::new(0);
     let git_calls = AtomicU64::new(0);
     run.sub_with(
@@ -469,11 +480,13 @@ pub fn run(run: &'static Run) {
                 }
             }
             for g in grammars() {
-                deviations(&g, k, &mut |s| {
-                    if seen.insert(s.clone()) {
-                        emit(GitCase { grammar: g.name.to_string(), text: s });
-                    }
-                });
+                for &(k, width) in levels {
+                    deviations(&g, k, width, &mut |s| {
+                        if seen.insert(s.clone()) {
+                            emit(GitCase { grammar: g.name.to_string(), text: s });
+                        }
+                    });
+                }
             }
         },
         |c: &GitCase| -> Verdict { dump((|| -> Verdict {
@@ -483,6 +496,16 @@ pub fn run(run: &'static Run) {
                 Ok(Ok(t)) => t,
             };
             git_calls.fetch_add(1, Ordering::Relaxed);
+            // documented deviations (see notes/C52.md): instants before the epoch cannot be expressed by git at all
+            // (gix-date/src/lib.rs, `SecondsSinceUnixEpoch`: "git only supports dates *from* the UNIX epoch, whereas we chose to be more flexible"),
+            // and a doubled sign in a raw offset is accepted on purpose (gix-date/tests/time/parse.rs `double_negation_in_offset`).
+            if ours.seconds < 0 {
+                return ok_trivial("before-epoch-documented-deviation");
+            }
+            if c.text.contains("--") || c.text.contains("+-") {
+                return ok_trivial("double-sign-offset-documented-deviation");
+            }
+            git_calls.fetch_add(1, Ordering::Relaxed);
             match git_parse(dir.path(), &c.text) {
                 Git::Rejected => ok_trivial(format!("git-refuses-{}", c.grammar)),
                 Git::Parsed(s, o) if (s, o) == (ours.seconds, ours.offset) => {
@@ -490,8 +513,30 @@ pub fn run(run: &'static Run) {
                     ok(format!("agree-{}", c.grammar))
                 }
                 Git::Parsed(s, o) => {
-                    let class = if s == ours.seconds { "offset-differs" } else { "instant-differs" };
-                    bad(class, format!("{:?}: gitoxide parses seconds {} offset {}, git parses seconds {s} offset {o}", c.text, ours.seconds, ours.offset))
+                    let detail = format!("{:?}: gitoxide parses seconds {} offset {}, git parses seconds {s} offset {o}", c.text, ours.seconds, ours.offset);
+                    if c.text.starts_with("1979-02-26 18:30:00") && ours.seconds == 42 {
+                        return bad("hardcoded-literal", detail);
+                    }
+                    // name the failure shape by what explains the whole difference; anything not fully explained keeps the generic class
+                    let mut d = s.wrapping_sub(ours.seconds);
+                    let mut shapes = Vec::new();
+                    if o == 0 && ours.offset != 0 {
+                        // git ignored the zone (hours >= 24 or minutes >= 60) and read the civil time as UTC
+                        shapes.push("zone-ignored-by-git");
+                        if c.grammar != "raw-unix" {
+                            d = d.wrapping_sub(ours.offset as i64);
+                        }
+                    } else if o != ours.offset {
+                        return bad("offset-differs", detail);
+                    }
+                    if d == 1 && c.text.contains(":60") {
+                        shapes.push("leap-second-clamped");
+                        d = 0;
+                    }
+                    if d != 0 || shapes.is_empty() {
+                        return bad("instant-differs", detail);
+                    }
+                    bad(shapes[0], detail)
                 }
             }
         })()) },
